@@ -199,3 +199,133 @@ func init() {
 		return true
 	})
 }
+
+// sync / sync/atomic primitives as plain cell operations (single-threaded execution)
+func init() {
+	noop := func(e *Engine, st *State, c *callCtx) bool { c.ret(st, nil); return true }
+	for _, n := range []string{"(*sync.Mutex).Lock", "(*sync.Mutex).Unlock", "(*sync.RWMutex).Lock", "(*sync.RWMutex).Unlock",
+		"(*sync.RWMutex).RLock", "(*sync.RWMutex).RUnlock", "(*sync.WaitGroup).Add", "(*sync.WaitGroup).Done", "(*sync.WaitGroup).Wait",
+		"(*sync.Pool).Put", "runtime.Gosched", "runtime.KeepAlive", "runtime.SetFinalizer"} {
+		reg(n, noop)
+	}
+	reg("(*sync.Mutex).TryLock", func(e *Engine, st *State, c *callCtx) bool { c.ret(st, tTrue); return true })
+	ptr := func(c *callCtx) PtrVal {
+		p, ok := c.args[0].(PtrVal)
+		if !ok || p.Obj == 0 {
+			unsup("atomic operation on %s", describe(c.args[0]))
+		}
+		return p
+	}
+	for _, w := range []string{"Int32", "Int64", "Uint32", "Uint64", "Uintptr"} {
+		w := w
+		reg("sync/atomic.Load"+w, func(e *Engine, st *State, c *callCtx) bool { c.ret(st, e.load(st, ptr(c))); return true })
+		reg("sync/atomic.Store"+w, func(e *Engine, st *State, c *callCtx) bool { e.store(st, ptr(c), c.args[1]); c.ret(st, nil); return true })
+		reg("sync/atomic.Add"+w, func(e *Engine, st *State, c *callCtx) bool {
+			p := ptr(c)
+			old := e.load(st, p).(*Term)
+			t := c.fn.Signature.Results().At(0).Type()
+			nv := e.norm(e.name(Add(old, c.term(1))), t)
+			e.store(st, p, nv)
+			c.ret(st, nv)
+			return true
+		})
+		reg("sync/atomic.Swap"+w, func(e *Engine, st *State, c *callCtx) bool {
+			p := ptr(c)
+			old := e.load(st, p)
+			e.store(st, p, c.args[1])
+			c.ret(st, old)
+			return true
+		})
+		reg("sync/atomic.CompareAndSwap"+w, func(e *Engine, st *State, c *callCtx) bool {
+			p := ptr(c)
+			old := e.load(st, p).(*Term)
+			eq := Eq(old, c.term(1))
+			return e.branch(st, []Alt{
+				{Cond: eq, Do: func(s *State) { e.store(s, p, c.args[2]); c.ret(s, tTrue) }},
+				{Cond: Not(eq), Do: func(s *State) { c.ret(s, tFalse) }},
+			})
+		})
+	}
+	// atomic.Value as a plain cell holding an interface
+	reg("(*sync/atomic.Value).Load", func(e *Engine, st *State, c *callCtx) bool {
+		v, ok := st.side["atomicValue"+ptrKey(ptr(c))]
+		if !ok {
+			v = IfaceVal{}
+		}
+		c.ret(st, v)
+		return true
+	})
+	reg("(*sync/atomic.Value).Store", func(e *Engine, st *State, c *callCtx) bool {
+		if iv, ok := c.args[1].(IfaceVal); ok && iv.T == nil {
+			e.doPanic(st, OpaqueVal{"sync/atomic: store of nil value into Value"}, "panic atomic.Value.Store(nil)", "explicit")
+			return true
+		}
+		st.side["atomicValue"+ptrKey(ptr(c))] = c.args[1]
+		c.ret(st, nil)
+		return true
+	})
+	reg("(*sync.Once).Do", func(e *Engine, st *State, c *callCtx) bool {
+		k := "once" + ptrKey(ptr(c))
+		if _, done := st.side[k]; done {
+			c.ret(st, nil)
+			return true
+		}
+		st.side[k] = tTrue
+		return e.invoke(st, c.args[1].(FuncVal), nil, c.site, func(s *State, rv Value) { c.ret(s, nil) })
+	})
+	reg("(*sync.Pool).Get", func(e *Engine, st *State, c *callCtx) bool {
+		// a pool may always be empty: call New
+		pv := e.load(st, ptr(c)).(StructVal)
+		pt := c.fn.Signature.Recv().Type().(*types.Pointer).Elem().Underlying().(*types.Struct)
+		for i := 0; i < pt.NumFields(); i++ {
+			if pt.Field(i).Name() == "New" {
+				fv, ok := pv.F[i].(FuncVal)
+				if !ok || (fv.Fn == nil && fv.Name == "") {
+					c.ret(st, IfaceVal{})
+					return true
+				}
+				return e.invoke(st, fv, nil, c.site, c.ret)
+			}
+		}
+		c.ret(st, IfaceVal{})
+		return true
+	})
+	// sync.Map as an association list
+	smap := func(e *Engine, st *State, c *callCtx) (string, MapVal) {
+		k := "syncmap" + ptrKey(ptr(c))
+		m, ok := st.side[k].(MapVal)
+		if !ok {
+			id := st.newObj(nil, nil)
+			st.heap[id].M = &MapObj{}
+			m = MapVal{Obj: id}
+			st.side[k] = m
+		}
+		return k, m
+	}
+	reg("(*sync.Map).Load", func(e *Engine, st *State, c *callCtx) bool {
+		_, m := smap(e, st, c)
+		return e.mapFind(st, m, c.args[1], nil, func(s *State, i int) {
+			if i < 0 {
+				c.ret(s, TupleVal{IfaceVal{}, tFalse})
+			} else {
+				c.ret(s, TupleVal{s.heap[m.Obj].M.E[i].V, tTrue})
+			}
+		})
+	})
+	reg("(*sync.Map).Store", func(e *Engine, st *State, c *callCtx) bool {
+		_, m := smap(e, st, c)
+		return e.mapFind(st, m, c.args[1], nil, func(s *State, i int) {
+			e.mapSet(s, m, i, c.args[1], c.args[2])
+			c.ret(s, nil)
+		})
+	})
+	reg("(*sync.Map).Delete", func(e *Engine, st *State, c *callCtx) bool {
+		_, m := smap(e, st, c)
+		return e.mapFind(st, m, c.args[1], nil, func(s *State, i int) {
+			if i >= 0 {
+				e.mapDelete(s, m, i)
+			}
+			c.ret(s, nil)
+		})
+	})
+}
